@@ -1,0 +1,31 @@
+//! Crash points for the verification harness in /verif.
+//!
+//! Only compiled with `--cfg anything_verif`. When the environment variable
+//! `ANYTHING_VERIF_CRASH` is set to `<name>` or `<name>@<n>` the process
+//! aborts the n-th time (1-based, default 1) the point `<name>` is reached,
+//! exactly as if it had been killed there.
+
+use std::sync::atomic::{AtomicUsize, Ordering};
+
+static HITS: AtomicUsize = AtomicUsize::new(0);
+
+/// Reach the crash point `name`.
+pub(crate) fn crash_point(name: &str) {
+    let spec = match std::env::var("ANYTHING_VERIF_CRASH") {
+        Ok(spec) => spec,
+        Err(..) => return,
+    };
+
+    let (want, n) = match spec.split_once('@') {
+        Some((want, n)) => (want, n.parse::<usize>().unwrap_or(1)),
+        None => (spec.as_str(), 1),
+    };
+
+    if want != name {
+        return;
+    }
+
+    if HITS.fetch_add(1, Ordering::SeqCst) + 1 == n {
+        std::process::abort();
+    }
+}
